@@ -429,7 +429,11 @@ func C01(p *core.Program, r *core.Report) {
 				return false
 			}
 			n := core.NamedOf(pt.Elem())
-			if n == nil || n.Obj().Pkg() == nil || !core.IsModPkg(n.Obj().Pkg().Path()) {
+			if n == nil || n.Obj().Pkg() == nil {
+				return false
+			}
+			// the module's records, and the URL objects it keeps in locals that start out nil
+			if !core.IsModPkg(n.Obj().Pkg().Path()) && !(n.Obj().Pkg().Path() == "net/url" && n.Obj().Name() == "URL") {
 				return false
 			}
 			_, isStruct := n.Underlying().(*types.Struct)
@@ -510,15 +514,20 @@ func C01(p *core.Program, r *core.Report) {
 					// decided the same condition the other way before (`len(list) != 0 && last().x`),
 					// that edge is infeasible. Edges that contradict the guard of every nil edge are
 					// removed as well; if no nil edge stays reachable the value is not nil here.
+					// per nil edge: the edges that contradict the condition selecting it (nil: none known)
+					var contras []core.EdgeSet
+					otherMayNil := false
 					if ph, isPhi := v.(*ssa.Phi); isPhi {
 						feasible := false
-						extra := core.EdgeSet{}
 						for i, e := range ph.Edges {
 							if k, isC := e.(*ssa.Const); !isC || k.Value != nil {
-								feasible = feasible || valueMayBeNilRec(e, map[ssa.Value]bool{})
+								if valueMayBeNilRec(e, map[ssa.Value]bool{}) {
+									feasible, otherMayNil = true, true
+								}
 								continue
 							}
 							contra := contradictingEdges(p, fn, ph.Block().Preds[i], ph.Block())
+							contras = append(contras, contra)
 							if contra == nil {
 								feasible = true
 								continue
@@ -526,16 +535,27 @@ func C01(p *core.Program, r *core.Report) {
 							if core.ReachableBlocks(fn, contra)[ph.Block().Preds[i]] {
 								feasible = true
 							}
-							for ed := range contra {
-								extra[ed] = true
-							}
 						}
 						if !feasible {
 							continue
 						}
-						if nNil := countNilEdges(ph); nNil == 1 {
-							cut = core.Union(cut, extra)
+					}
+					// a path through nil edge i cannot take an edge that contradicts the condition
+					// selecting that edge: if, for every nil edge, the dereference is unreachable once
+					// those edges are removed, no path brings a nil there
+					safeBy := func(ref ssa.Instruction) bool {
+						if !core.InstrReachable(fn, cut, ref) {
+							return true
 						}
+						if len(contras) == 0 || otherMayNil {
+							return false
+						}
+						for _, contra := range contras {
+							if contra == nil || core.InstrReachable(fn, core.Union(cut, contra), ref) {
+								return false
+							}
+						}
+						return true
 					}
 					for _, ref := range *v.Referrers() {
 						deref := false
@@ -544,13 +564,18 @@ func C01(p *core.Program, r *core.Report) {
 							deref = x.X == v
 						case *ssa.UnOp:
 							deref = x.Op == token.MUL && x.X == v
+						case *ssa.Call:
+							// a method of *url.URL called on it (they read the fields without a nil test)
+							if f := x.Call.StaticCallee(); f != nil && f.Signature.Recv() != nil && len(x.Call.Args) > 0 && x.Call.Args[0] == v && strings.HasPrefix(f.String(), "(*net/url.URL).") {
+								deref = true
+							}
 						}
 						if !deref {
 							continue
 						}
 						nT9++
 						key := fmt.Sprintf("%s: %s may be nil", unitName(fn), shortVal(c.Of(v)))
-						if seenKey[key] || !core.InstrReachable(fn, cut, ref) {
+						if seenKey[key] || safeBy(ref) {
 							continue
 						}
 						seenKey[key] = true
@@ -1097,7 +1122,9 @@ func contradictingEdges(p *core.Program, fn *ssa.Function, pred, succ *ssa.Basic
 					continue
 				}
 				a2, wt2 := c.CondAtom(if2.Cond)
-				if a2 != atom || !pureBetween(b2, b) {
+				// the same condition decided before with nothing in between that could change it -
+				// or the very same SSA value tested anywhere (a value does not change)
+				if a2 != atom || !(stripNots(if2.Cond) == stripNots(ifi.Cond) || pureBetween(b2, b)) {
 					continue
 				}
 				// the edge of b2 on which the atom has the opposite value
@@ -1202,4 +1229,14 @@ func listedDescendantParent(v ssa.Value) (root, elem ssa.Value, mayBeRoot bool) 
 		return call.Call.Args[0], x, true
 	}
 	return nil, nil, false
+}
+
+func stripNots(v ssa.Value) ssa.Value {
+	for {
+		u, ok := v.(*ssa.UnOp)
+		if !ok || u.Op != token.NOT {
+			return v
+		}
+		v = u.X
+	}
 }
